@@ -1155,7 +1155,7 @@ impl<'a> ToTokens for JoinOutput<'a> {
                 quote! {
                     ::std::boxed::Box::pin(
                         async move {
-                            use #futures_crate_path::{FutureExt, TryFutureExt, StreamExt, TryStreamExt};
+                            use #futures_crate_path::{FutureExt as _, TryFutureExt as _, StreamExt as _, TryStreamExt as _};
                             #async_spawn_fn_definition
                             #handler_definition
                             let #results_var = { #steps_stream };
